@@ -207,7 +207,7 @@ static void build_x26(Rng& r, const Layout&, int variant, std::vector<uint32_t>&
     int ninv = 1 + (int)r.below(4);
     for (int i = 0; i < ninv; i++) {
       if (r.chance(1, 3)) put(at++, trip(40 + (int)r.below(24), 0x10, (int)r.below(72)));
-      put(at++, obj_invocation((int)r.below(12), r.chance(1, 2), r.chance(7, 8) ? 0 : (int)r.below(16)));
+      put(at++, obj_invocation((int)r.below(12), r.chance(1, 2), r.chance(15, 16) ? 0 : (int)r.below(16)));
       if (r.chance(1, 2)) put(at++, trip(40 + 1 + (int)r.below(23), 4, (int)r.below(40)));
     }
     int nd = (int)r.below(6);
@@ -314,7 +314,7 @@ static void build_page(int kind, int mag, int page, int sub, unsigned ctrl, uint
       for (auto& v : T) v = r.chance(1, 3) ? trip(63, 0x1F, 0) : rand_triplet(r, true);
       uint32_t P[4][13];
       for (auto& pk : P) for (auto& v : pk) v = r.chance(1, 4) ? (uint32_t)r.below(1 << 18) : 0x3FFFF;
-      int nobj = 1 + (int)r.below(12);
+      int nobj = r.chance(3, 4) ? 12 : 1 + (int)r.below(12);
       for (int k = 0; k < nobj; k++) {
         int t = obj_type(k), tri = (k / 3) * 3 + t, ptr = obj_ptr(k);
         P[0][tri] = (uint32_t)ptr | (0x1FFu << 9);
@@ -346,13 +346,13 @@ static void build_page(int kind, int mag, int page, int sub, unsigned ctrl, uint
       break;
     }
     case K_MOT: {
-      for (int y = 1; y <= 8; y++) if (r.chance(5, 6)) { uint8_t n[40]; for (int i = 0; i < 40; i += 2) { n[i] = (uint8_t)(r.chance(3, 4) ? 1 + r.below(2) : r.below(16)); n[i + 1] = (uint8_t)(r.chance(3, 4) ? 1 + r.below(2) : r.below(16)); } body.push_back(nibble_packet(mag, y, n)); }
+      for (int y = 1; y <= 8; y++) if (r.chance(5, 6)) { uint8_t n[40]; for (int i = 0; i < 40; i += 2) { n[i] = (uint8_t)(r.chance(7, 8) ? 1 + r.below(2) : r.below(16)); n[i + 1] = (uint8_t)(r.chance(7, 8) ? 1 + r.below(2) : r.below(16)); } body.push_back(nibble_packet(mag, y, n)); }
       for (int y = 9; y <= 14; y++) if (r.chance(1, 2)) nib_row(y, 0, r.chance(1, 2) ? 3 : 15);
       auto pop_row = [&](int y) {
         uint8_t n[40];
         for (int i = 0; i < 4; i++) {
           int target = i == 0 ? L.gpop : L.pop[(i - 1) & 1];
-          if (r.chance(1, 8)) target = rand_pgno(r);
+          if (r.chance(1, 16)) target = rand_pgno(r);
           uint8_t* q = n + i * 10;
           q[0] = (uint8_t)((target >> 8) & 7); q[1] = (uint8_t)((target >> 4) & 15); q[2] = (uint8_t)(target & 15); q[3] = (uint8_t)r.below(16);
           q[4] = (uint8_t)r.below(16);
@@ -371,9 +371,9 @@ static void build_page(int kind, int mag, int page, int sub, unsigned ctrl, uint
           n[i * 4] = (uint8_t)((target >> 8) & 7); n[i * 4 + 1] = (uint8_t)((target >> 4) & 15); n[i * 4 + 2] = (uint8_t)(target & 15); n[i * 4 + 3] = (uint8_t)r.below(16); }
         body.push_back(nibble_packet(mag, y, n));
       };
-      if (r.chance(5, 6)) pop_row(19);
+      if (r.chance(15, 16)) pop_row(19);
       if (r.chance(1, 2)) pop_row(20);
-      if (r.chance(5, 6)) drcs_row(21);
+      if (r.chance(15, 16)) drcs_row(21);
       if (r.chance(1, 3)) pop_row(22);
       if (r.chance(1, 3)) pop_row(23);
       if (r.chance(1, 3)) drcs_row(24);
@@ -383,7 +383,9 @@ static void build_page(int kind, int mag, int page, int sub, unsigned ctrl, uint
     case K_MIP: {
       static const int codes[] = {0x00, 0x01, 0x01, 0x01, 0x02, 0x10, 0x4F, 0x50, 0x51, 0x52, 0x70, 0x73, 0x77, 0x78, 0x79, 0x7A, 0x7B, 0x7C, 0x7D, 0x7E, 0x7F, 0x80, 0x81, 0x82, 0xCF, 0xD0, 0xD1, 0xD5,
                                   0xE0, 0xE1, 0xE2, 0xE3, 0xE4, 0xE5, 0xE6, 0xE7, 0xE8, 0xEB, 0xEC, 0xEF, 0xF0, 0xF3, 0xF4, 0xF7, 0xF8, 0xF9, 0xFA, 0xFC, 0xFD, 0xFE, 0xFF};
+      bool subpage_heavy = r.chance(1, 5);  // every page refers to the sub-page table in packets 15-25 (more than 10 x 13 entries)
       auto code_for = [&](int pg) -> int {
+        if (subpage_heavy) { static const int sc[] = {0x50, 0x51, 0xD0, 0xD1, 0xE0, 0xE1, 0x7B, 0xF8, 0x51, 0x51}; return sc[r.below(10)]; }
         if (r.chance(7, 8)) {
           if (pg == L.gpop || pg == L.pop[0] || pg == L.pop[1]) return r.chance(1, 2) ? 0xE6 : 0xEC + (int)r.below(4);
           if (pg == L.gdrcs || pg == L.drcs[0] || pg == L.drcs[1]) return r.chance(1, 2) ? 0xE5 : 0xE8 + (int)r.below(4);
@@ -403,7 +405,7 @@ static void build_page(int kind, int mag, int page, int sub, unsigned ctrl, uint
         n[36] = n[37] = n[38] = n[39] = (uint8_t)r.below(16);
         body.push_back(nibble_packet(mag, y, n));
       }
-      for (int y = 15; y <= 25; y++) if (r.chance(1, 2)) nib_row(y, 0, r.chance(1, 2) ? 9 : 15);
+      for (int y = 15; y <= 25; y++) if (subpage_heavy || r.chance(1, 2)) nib_row(y, subpage_heavy ? 2 : 0, r.chance(1, 2) ? 9 : 15);
       break;
     }
     case K_BTT: {
@@ -789,8 +791,8 @@ struct C01 : World {
         car.push_back(d);
       };
       core(K_MOT, m1 * 256 + 0xFE, 0);
-      core(K_GPOP, L.gpop, 0); core(K_POP, L.pop[0], 0);
-      core(K_GDRCS, L.gdrcs, 0); core(K_DRCS, L.drcs[0], 0);
+      core(K_GPOP, L.gpop, 0); core(K_POP, L.pop[0], 0); core(K_POP, L.pop[1], 0);
+      core(K_GDRCS, L.gdrcs, 0); core(K_DRCS, L.drcs[0], 0); core(K_DRCS, L.drcs[1], 0);
       int n = 2 + (int)r.below(3);
       for (int i = 0; i < n; i++) core(r.chance(3, 4) ? K_LOP_OBJ : K_LOP, m1 * 256 + (int)(r.below(10) << 4 | r.below(10)), (r.chance(1, 3) ? PF_X27_4 : 0) | (r.chance(1, 4) ? PF_X28_0 : 0) | PF_DENSE);
       if (r.chance(1, 2)) core(K_MIP, m1 * 256 + 0xFD, 0);
